@@ -344,6 +344,9 @@ func replayOne[C any](t *testing.T, id, file string, st *Stats, run func(C, *Sta
 	}
 }
 
+// Scratch returns a throw-away Stats (for oracle code that is run outside a counted case).
+func Scratch(id string) *Stats { return newStats(id) }
+
 // ---- small helpers shared by harnesses -------------------------------------
 
 // JSON renders v compactly for failure messages.
